@@ -81,7 +81,7 @@ CHECKS = {
         technique="deterministic simulation: exact quiescence after terminal events, store row-set diff oracle",
         ref="DESIGN.md §6 C17"),
     "C18": dict(
-        text="Seeded search over 1..5 filtered channels (type/state/key/uses/tag patterns from literal, *, ?, {a,b}, [a-c]) beside a match-all channel, with channels closed / unsubscribed / re-registered under the same id at seeded task boundaries while dispatches are in flight, over generated runs with tags on workflow, steps and acts: RefGlob (independent matcher) decides for every message and channel delivered <=> registered at the dispatch and all patterns match (tag: message tag or model tag); never twice per channel id; nothing on a filtered channel that the match-all channel did not see. Sampling: evidence, not proof.",
+        text="Two parts. (a) Seeded search over 1..5 filtered channels (type/state/key/uses/tag patterns from literal, *, ?, {a,b}, [a-c]) beside a match-all channel, with channels closed / unsubscribed / re-registered under the same id at seeded task boundaries while dispatches are in flight, over generated runs with tags on workflow, steps and acts: RefGlob (independent matcher) decides for every message and channel delivered <=> registered at the dispatch and all patterns match (tag: message tag or model tag); never twice per channel id; nothing on a filtered channel that the match-all channel did not see. (b) A handler unsubscribes its own or another channel from inside its callback, on its k-th delivery (the dispatch that calls it is in flight by definition), with the engine's lock operations intercepted: the call returns (no deadlock on the handler maps), the run goes on, and the unsubscribed channel receives nothing that was generated after the call returned. Sampling: evidence, not proof.",
         note="Trusted: RefGlob for the stated subset (non-empty alternatives); one dispatch task delivers to all channels registered at that instant, so registration is judged at the dispatch observed through the match-all channel.",
         technique="deterministic simulation: (de)registration faults at task boundaries, per-channel delivery vs an independent glob reference",
         ref="DESIGN.md §6 C18"),
